@@ -5,7 +5,12 @@
 * the ORDER and the TESTS of the if/elif chain of adapt_typehints (from the ast);
 * the sort key of sort_subtypes_for_union: source of the key lambdas and the order it produces on a probe list;
 * the source of the statements the model transcribes literally (Union result selection, tuple arity test,
-  bool-for-int guard), normalised with ast.unparse.
+  bool-for-int guard), normalised with ast.unparse;
+* (session 2) EVERY statement of the branches the model transcribes: prologue (default early-out, adapt_kwargs),
+  Any, registered, Tuple/Set, Sequence, Mapping (without its TypedDict part), the whole of `_check_type`,
+  `parse_value_or_config`, `load_value`, `load_basic`, and from typing.py the two `validation_fn`s of the restricted
+  types, `TypeCore.__new__`, `RegisteredType.is_value_of_type` / `deserializer`, the `register_type` call of
+  `add_type` and the comparison operator table.
 
 Props/C02.lean compares every constant with the value the model was written against (`decide`), so an edit
 of these places breaks a proof obligation.
@@ -174,5 +179,65 @@ def generate(problems):
     body += "def checkTypeSkeleton : List String := %s\n" % lean_str_list(keep)
     vsrc = textwrap.dedent(inspect.getsource(m.ActionTypeHint._is_valid_string))
     body += "def isValidStringSrc : List String := %s\n" % lean_str_list([ast.unparse(s) for s in ast.parse(vsrc).body[0].body])
+
+    # ---- every statement of the branches the model transcribes (session 2) ------------------------------------------
+    def fn_body(f, skip_doc=True):
+        node = ast.parse(textwrap.dedent(inspect.getsource(f))).body[0]
+        sts = node.body
+        if skip_doc and sts and isinstance(sts[0], ast.Expr) and isinstance(getattr(sts[0], "value", None), ast.Constant) and isinstance(sts[0].value.value, str):
+            sts = sts[1:]
+        return [ast.unparse(x) for x in sts]
+
+    def branch_body(label, drop=None):
+        node = by_label.get(label)
+        if node is None:
+            problems.append("AdaptTables: branch %s not found" % label)
+            return []
+        return [ast.unparse(x) for x in node.body if not (drop and drop in ast.unparse(x).split("\n")[0])]
+
+    pro, epi, seen_chain = [], [], False
+    for st in fn.body:
+        if chain and st is chain[0]:
+            seen_chain = True
+            continue
+        (epi if seen_chain else pro).append(ast.unparse(st))
+    body += "def adaptPrologueSrc : List String := %s\n" % lean_str_list(pro)
+    body += "def adaptEpilogueSrc : List String := %s\n" % lean_str_list(epi)
+    body += "def adaptSignature : List String := %s\n" % lean_str_list([ast.unparse(fn.args)])
+    body += "def anyBranchSrc : List String := %s\n" % lean_str_list(branch_body("Any"))
+    body += "def registeredBranchSrc : List String := %s\n" % lean_str_list(branch_body("registered"))
+    body += "def tupleSetBranchSrc : List String := %s\n" % lean_str_list(branch_body("TupleSet"))
+    body += "def sequenceBranchSrc : List String := %s\n" % lean_str_list(branch_body("Sequence"))
+    # the Mapping branch without its TypedDict part (required / extra keys: outside the model)
+    body += "def mappingBranchSrc : List String := %s\n" % lean_str_list(branch_body("Mapping", drop="if type(typehint) in typed_dict_meta_types"))
+    body += "def checkTypeSrc : List String := %s\n" % lean_str_list(fn_body(m.ActionTypeHint._check_type))
+
+    # ---- what the model transcribes outside _typehints.py: the loader front end and the restricted / registered types ---
+    from jsonargparse import _loaders_dumpers as ld
+    from jsonargparse import _util as ut
+    from jsonargparse import typing as ty
+
+    body += "def parseValueOrConfigSrc : List String := %s\n" % lean_str_list(fn_body(ut.parse_value_or_config))
+    body += "def loadValueSrc : List String := %s\n" % lean_str_list(fn_body(ld.load_value))
+    body += "def loadBasicSrc : List String := %s\n" % lean_str_list(fn_body(ld.load_basic))
+
+    def nested_fn(outer, name):
+        node = ast.parse(textwrap.dedent(inspect.getsource(outer))).body[0]
+        for sub in ast.walk(node):
+            if isinstance(sub, ast.FunctionDef) and sub.name == name and sub is not node:
+                return [ast.unparse(sub)]
+        problems.append("AdaptTables: %s not found in %s" % (name, outer.__name__))
+        return []
+
+    body += "def restrictedNumberValidationSrc : List String := %s\n" % lean_str_list(nested_fn(ty.restricted_number_type, "validation_fn"))
+    body += "def restrictedStringValidationSrc : List String := %s\n" % lean_str_list(nested_fn(ty.restricted_string_type, "validation_fn"))
+    body += "def typeCoreNewSrc : List String := %s\n" % lean_str_list(nested_fn(ty.extend_base_type, "__new__"))
+    body += "def registeredTypeSrc : List String := %s\n" % lean_str_list(
+        fn_body(ty.RegisteredType.is_value_of_type) + fn_body(ty.RegisteredType.deserializer))
+    reg_call = [ast.unparse(x) for x in ast.walk(ast.parse(textwrap.dedent(inspect.getsource(ty.add_type)))) if isinstance(x, ast.Call) and ast.unparse(x.func) == "register_type"]
+    body += "def addTypeRegisterSrc : List String := %s\n" % lean_str_list(reg_call)
+    ops1 = getattr(ty, "_operators1", {})
+    body += "def restrictedOperators : List (String × String) := [%s]\n" % ", ".join(
+        "(%s, %s)" % (lean_str(getattr(k, "__name__", str(k))), lean_str(v)) for k, v in ops1.items())
     body += "end Jap.Gen\n"
     write_if_changed("AdaptTables.lean", body)
